@@ -71,25 +71,39 @@ Section Guarded.
 
   Lemma auth_set_signed : forall r, Auth U anchors now r -> is_key r = false -> SetSigned U now r.
   Proof.
-    intros r H Hk. inversion H as [kr Hkk Ha|kr d Hd Hv|r0 k sec s kr Hsec Hr Hs Hkr Hok]; subst.
+    intros r H Hk. inversion H as [kr Hkk Ha|kr d Hd Hv|r0 k sec s kr Hsec Hr Hs Hkr Hok Hzo]; subst.
     - congruence.
     - inversion Hv. unfold is_key in Hk. rewrite H0 in Hk. discriminate.
     - exists sec, k, s, kr. auto.
   Qed.
 
-  Lemma auth_home_signed : forall r,
-    (forall sec s, Delivered U sec -> In s sec -> is_sig s = true -> zone_of (sig_signer s) (owner s) = true) ->
-    Auth U anchors now r -> is_key r = false -> HomeSigned U r.
+  (* an authenticated record that is not a key was delivered in an RRset with a signature that
+     verifies under an authenticated key of the zone named as signer, and that zone is the owner
+     of the record or an ancestor of it *)
+  Definition ZoneSigned (r : rr) : Prop :=
+    exists sec k s kr, Delivered U sec /\ In r (recs_of k sec) /\ In s (sigs_of k sec) /\
+      SigOk now k (recs_of k sec) kr s /\ Auth U anchors now kr /\
+      sig_signer s = owner kr /\ zone_of (owner kr) (owner r) = true.
+
+  Lemma auth_zone_signed : forall r, Auth U anchors now r -> is_key r = false -> ZoneSigned r.
   Proof.
-    intros r Hz H Hk. inversion H as [kr Hkk Ha|kr d Hd Hv|r0 k sec s kr Hsec Hr Hs Hkr Hok]; subst.
+    intros r H Hk. inversion H as [kr Hkk Ha|kr d Hd Hv|r0 k sec s kr Hsec Hr Hs Hkr Hok Hzo]; subst.
     - congruence.
     - inversion Hv. unfold is_key in Hk. rewrite H0 in Hk. discriminate.
     - apply recs_of_In in Hr as Hr'. destruct Hr' as (Hrs & Hkr' & _).
-      apply sigs_of_In in Hs as Hs'. destruct Hs' as (Hss & Hks & Hsig).
-      exists sec, s. repeat split; auto.
-      + now rewrite Hkr'.
-      + assert (E : owner r = owner s). { transitivity (fst k); [now rewrite <- Hkr'|now rewrite <- Hks]. }
-        rewrite E. apply (Hz sec s); auto.
+      exists sec, k, s, kr. repeat split; auto.
+      + inversion Hok as [kid pk alg tag tc labels ottl exp inc n Ekr Es Hl Hi He Hn Hne].
+        unfold sig_signer. rewrite Es. reflexivity.
+      + rewrite <- Hkr' in Hzo. exact Hzo.
+  Qed.
+
+  Lemma auth_home_signed : forall r, Auth U anchors now r -> is_key r = false -> HomeSigned U r.
+  Proof.
+    intros r H Hk. destruct (auth_zone_signed r H Hk) as (sec & k & s & kr & Hsec & Hr & Hs & Hok & _ & Esg & Hzo).
+    apply recs_of_In in Hr as Hr'. destruct Hr' as (Hrs & Hkr' & _).
+    exists sec, s. repeat split; auto.
+    - now rewrite Hkr'.
+    - now rewrite Esg.
   Qed.
 End Guarded.
 
@@ -135,7 +149,9 @@ Proof. apply no_denial_material. vm_compute. reflexivity. Qed.
 
 (* W3 (harness attack script atk-foreign-signer, hierarchy 0, e.g. replay 1:509): the answer to (www.leaf.tld, A) is replaced by a
    forged A record with an RRSIG really made by the key of the sibling zone evil.tld, signer
-   name evil.tld.  Labels: tld = 1, leaf = 2, evil = 4, www = 6. *)
+   name evil.tld.  Labels: tld = 1, leaf = 2, evil = 4, www = 6.
+   Before the fix of finding C07-K3 the forged record came back Secure; now the RRSIG is not used
+   (its signer is not the owner or an ancestor of the owner) and the record is Bogus. *)
 Definition w3_tbl : list (query * ureply) :=
   [([], 48, UOk {| rcode := 0; ans := [{| owner := []; rid := 1; rbody := BKey 1 1 15 65321 true false |}; {| owner := []; rid := 2; rbody := BSig 48 15 0 3600 1700604800 1699996400 65321 [] (SGen 1 {| t_owner := []; t_type := 48; t_labels := 0; t_ottl := 3600; t_alg := 15; t_exp := 1700604800; t_inc := 1699996400; t_tag := 65321; t_signer := []; t_rids := [1] |}) |}]; auth := [] |});
    ([4; 1], 43, UOk {| rcode := 0; ans := [{| owner := [4; 1]; rid := 3; rbody := BDs 26578 15 2 (DGen [4; 1] 4) |}; {| owner := [4; 1]; rid := 5; rbody := BSig 43 15 2 3600 1700604800 1699996400 48941 [1] (SGen 2 {| t_owner := [4; 1]; t_type := 43; t_labels := 2; t_ottl := 3600; t_alg := 15; t_exp := 1700604800; t_inc := 1699996400; t_tag := 48941; t_signer := [1]; t_rids := [3] |}) |}]; auth := [] |});
@@ -145,8 +161,12 @@ Definition w3_tbl : list (query * ureply) :=
    ([6; 2; 1], 1, UOk {| rcode := 0; ans := [{| owner := [6; 2; 1]; rid := 11; rbody := BPlain 1 |}; {| owner := [6; 2; 1]; rid := 12; rbody := BSig 1 15 3 3600 1700086400 1699999940 26578 [4; 1] (SGen 3 {| t_owner := [6; 2; 1]; t_type := 1; t_labels := 3; t_ottl := 3600; t_alg := 15; t_exp := 1700086400; t_inc := 1699999940; t_tag := 26578; t_signer := [4; 1]; t_rids := [11] |}) |}]; auth := [] |})].
 Definition w3_forged : rr := {| owner := [6; 2; 1]; rid := 11; rbody := BPlain 1 |}.
 
-Lemma w3_secure : exists rc a au, run_tbl w3_tbl [1] 1700000000 ([6; 2; 1], 1) = VOk rc a au /\ In (w3_forged, Secure) a.
-Proof. eexists _, _, _. split; [vm_compute; reflexivity|]. cbn. auto. Qed.
+Lemma w3_rejected : exists rc a au, run_tbl w3_tbl [1] 1700000000 ([6; 2; 1], 1) = VOk rc a au /\
+  In (w3_forged, Bogus) a /\ forall r, ~ In (r, Secure) (a ++ au).
+Proof.
+  eexists _, _, _. split; [vm_compute; reflexivity|]. split; [cbn; auto|].
+  intros r Hin. cbn in Hin. repeat (destruct Hin as [Hin|Hin]; [discriminate|]). exact Hin.
+Qed.
 
 Lemma w3_not_home_signed : ~ HomeSigned (table_upstream w3_tbl) w3_forged.
 Proof.
